@@ -229,6 +229,112 @@ theorem residualMtl_spec (t : Nat) (C : List (List α)) (Y W : List (List α)) (
       obtain ⟨k, _, rfl⟩ := List.mem_map.mp hc
       rw [residual_length C _ _ 0 (by intro c hc'; rw [colK_length]; exact hC c hc'), colK_length]
 
+/-- the algebra of one coordinate step on the residual: add back the old contribution of feature `j`,
+subtract the new one -/
+theorem residual_set (C : List (List α)) (y w : List α) (j : Nat) (cj : List α) (v : α)
+    (hC : ∀ c ∈ C, c.length = y.length) (hw : w.length = C.length) (hcj : C[j]? = some cj) :
+    axpy (-v) cj (axpy (w.getD j 0) cj (LeastSquares.residual C y w 0)) = LeastSquares.residual C y (w.set j v) 0 := by
+  have hcjl : cj.length = y.length := hC cj (List.mem_of_getElem? hcj)
+  have hM : (matVec y.length C w).length = y.length := matVec_length _ C w hC
+  unfold LeastSquares.residual
+  rw [matVec_set _ C w j v cj hC hw hcj]
+  unfold axpy
+  apply List.ext_getElem (by simp [hM, hcjl])
+  intro i h1 h2
+  simp only [List.getElem_zipWith, List.getElem_map]
+  ring
+
+theorem dot_self_eq_zero (v : List α) (h : dot v v = 0) : ∀ x ∈ v, x = 0 := by
+  induction v with
+  | nil => simp
+  | cons a as ih =>
+    simp only [dot_cons] at h
+    have h1 := dot_self_nonneg as
+    have h2 := mul_self_nonneg a
+    have ha : a * a = 0 := by linarith
+    have has : dot as as = 0 := by linarith
+    intro x hx
+    rcases List.mem_cons.mp hx with rfl | hx
+    · exact mul_self_eq_zero.mp ha
+    · exact ih has x hx
+
+theorem rankOne_length (neg : Bool) (cj v : List α) (R : List (List α)) (h : cj.length = R.length) :
+    (rankOne neg cj v R).length = R.length := by simp [rankOne, h]
+
+theorem rankOne_rows (neg : Bool) (t : Nat) (cj v : List α) (R : List (List α)) (hv : v.length = t)
+    (hR : ∀ r ∈ R, r.length = t) : ∀ r ∈ rankOne neg cj v R, r.length = t := by
+  intro r hr
+  simp only [rankOne, List.mem_iff_getElem, List.length_zipWith] at hr
+  obtain ⟨i, hi, rfl⟩ := hr
+  simp only [List.getElem_zipWith, List.length_zipWith, hv]
+  rw [hR _ (List.getElem_mem _)]; simp
+
+/-- column `k` of a rank-one update is an `axpy` on column `k` -/
+theorem colK_rankOne (neg : Bool) (t k : Nat) (hk : k < t) (cj v : List α) (R : List (List α)) (hv : v.length = t)
+    (hR : ∀ r ∈ R, r.length = t) :
+    colK k (rankOne neg cj v R) = axpy (if neg then -(v.getD k 0) else v.getD k 0) cj (colK k R) := by
+  unfold colK rankOne axpy
+  apply List.ext_getElem (by simp)
+  intro i h1 h2
+  have hi : i < R.length := by simp at h1; omega
+  have hrl : (R[i]).length = t := hR _ (List.getElem_mem hi)
+  have hk1 : k < (R[i]).length := by omega
+  have hk2 : k < v.length := by omega
+  simp only [List.getElem_map, List.getElem_zipWith, List.getD_eq_getElem?_getD]
+  rw [List.getElem?_zipWith]
+  simp only [List.getElem?_eq_getElem hk1, List.getElem?_eq_getElem hk2, Option.getD_some]
+  cases neg <;> simp <;> ring
+
+theorem colK_set (k j : Nat) (W : List (List α)) (new : List α) :
+    colK k (W.set j new) = (colK k W).set j (new.getD k 0) := by
+  simp [colK, List.map_set]
+
+theorem colK_getD (k j : Nat) (W : List (List α)) (hj : j < W.length) :
+    (colK k W).getD j 0 = (W.getD j []).getD k 0 := by
+  simp [colK, List.getD_eq_getElem?_getD, hj]
+
+theorem blockSoft_length [Transc α] (x : List α) (thr : α) : (blockSoft x thr).length = x.length := by
+  unfold blockSoft
+  by_cases h : norm2U x ≤ thr <;> simp [h]
+
+/-- at the intercept `m` the squared error of task `y` is that of the centred task `y − m` without intercept -/
+theorem sq_centre_eq (C : List (List α)) (y w : List α) (m : α) :
+    dot (LeastSquares.residual C y w m) (LeastSquares.residual C y w m)
+      = dot (LeastSquares.residual C (y.map (· - m)) w 0) (LeastSquares.residual C (y.map (· - m)) w 0) := by
+  rw [residual_centre C y w m m]; simp
+
+/-- on centred columns, with `m` the mean of `y`, any intercept `b'` only adds `n·(b' − m)²` -/
+theorem sq_centre_le (C : List (List α)) (y w' : List α) (b' : α) (hC : ∀ c ∈ C, c.length = y.length)
+    (hy : 0 < y.length) (hcen : ∀ c ∈ C, c.sum = 0) :
+    dot (LeastSquares.residual C (y.map (· - y.sum / (y.length : α))) w' 0)
+        (LeastSquares.residual C (y.map (· - y.sum / (y.length : α))) w' 0)
+      ≤ dot (LeastSquares.residual C y w' b') (LeastSquares.residual C y w' b') := by
+  set m := y.sum / (y.length : α) with hm
+  set yc := y.map (· - m) with hyc
+  have hycl : yc.length = y.length := by simp [hyc]
+  have hC' : ∀ c ∈ C, c.length = yc.length := fun c hc => by rw [hycl]; exact hC c hc
+  have hnpos : (0 : α) < (y.length : α) := by exact_mod_cast hy
+  rw [residual_centre C y w' m b', ← hyc]
+  generalize hv : LeastSquares.residual C yc w' 0 = v
+  have hvs : v.sum = 0 := by
+    rw [← hv]; unfold LeastSquares.residual
+    rw [sum_residual 0 yc _ (by rw [matVec_length _ _ _ hC']), sum_matVec_centred _ C w' hC' hcen, hyc,
+      sum_map_sub, hm]
+    field_simp; ring
+  have hsh := sum_sq_shift v (b' - m) 0
+  rw [hvs] at hsh
+  have hv0 : v.map (· - (0 : α)) = v := by simp
+  rw [hv0] at hsh
+  have : 0 ≤ (v.length : α) * (0 - (b' - m)) ^ 2 := mul_nonneg (Nat.cast_nonneg _) (sq_nonneg _)
+  rw [hsh]; nlinarith
+
+theorem zipWith_map_range_getD {β δ : Type} (F : β → α → δ) (f : Nat → β) (t : Nat) (b : List α) (hb : b.length = t) :
+    List.zipWith F ((List.range t).map f) b = (List.range t).map fun k => F (f k) (b.getD k 0) := by
+  apply List.ext_getElem (by simp [hb])
+  intro i h1 h2
+  have hi : i < b.length := by simp at h1; omega
+  simp [List.getD_eq_getElem?_getD, hi]
+
 end field
 
 /-! ### over ℝ: norms -/
@@ -324,5 +430,265 @@ theorem objectiveMtl_eq (t : Nat) (C : List (List ℝ)) (Y W : List (List ℝ)) 
   have h3 : (List.map ((fun w => dot w w) ∘ fun k => colK k W) (List.range t)).sum = frob W W :=
     frob_colsOf t W W hW hW
   rw [h3]
+
+/-! ### the residual invariant of block coordinate descent (over ℝ, `eps = 0`) -/
+
+/-- with `eps = 0` the guard `abs_diff_ne!(‖v‖₂, 0)` only skips updates that change nothing -/
+theorem rankOne_if_zero (neg : Bool) (t : Nat) (cj v : List ℝ) (R : List (List ℝ)) (hv : v.length = t)
+    (hR : ∀ r ∈ R, r.length = t) (hcj : cj.length = R.length) :
+    (if absS (norm2U v) ≤ 0 then R else rankOne neg cj v R) = rankOne neg cj v R := by
+  split
+  · rename_i h0
+    rw [absS_eq, norm2U_eq] at h0
+    have h1 : Real.sqrt (dot v v) = 0 := abs_nonpos_iff.mp h0
+    have h2 : dot v v = 0 := le_antisymm (Real.sqrt_eq_zero'.mp h1) (dot_self_nonneg v)
+    have hz := dot_self_eq_zero v h2
+    unfold rankOne
+    apply List.ext_getElem (by simp [hcj])
+    intro i h3 h4
+    simp only [List.getElem_zipWith]
+    have hrl : (R[i]).length = t := hR _ (List.getElem_mem h3)
+    apply List.ext_getElem (by simp [hrl, hv])
+    intro k h5 h6
+    have : v[k]'(by simp at h6; omega) = 0 := hz _ (List.getElem_mem _)
+    simp only [List.getElem_zipWith, this]
+    cases neg <;> simp
+  · rfl
+
+/-- the invariant of the multi-task descent: shapes, and `R = Y − XW` task by task -/
+def BcdInv (t : Nat) (C : List (List ℝ)) (Y : List (List ℝ)) (st : BcdState ℝ) : Prop :=
+  st.r.length = Y.length ∧ (∀ r ∈ st.r, r.length = t) ∧ st.w.length = C.length ∧ (∀ wj ∈ st.w, wj.length = t) ∧
+    ∀ k, k < t → colK k st.r = LeastSquares.residual C (colK k Y) (colK k st.w) 0
+
+theorem bcdCoord_inv (contig : Bool) (t : Nat) (thr denAdd : ℝ) (C : List (List ℝ)) (Y : List (List ℝ))
+    (st : BcdState ℝ) (j : Nat) (cj : List ℝ) (nrm : ℝ) (hC : ∀ c ∈ C, c.length = Y.length)
+    (hcj : C[j]? = some cj) (h : BcdInv t C Y st) : BcdInv t C Y (bcdCoord contig t 0 thr denAdd st j cj nrm) := by
+  obtain ⟨hrn, hrt, hwp, hwt, hres⟩ := h
+  unfold bcdCoord
+  split
+  · exact ⟨hrn, hrt, hwp, hwt, hres⟩
+  · have hcjl : cj.length = Y.length := hC cj (List.mem_of_getElem? hcj)
+    have hj : j < st.w.length := by
+      rw [hwp]; exact (List.getElem?_eq_some_iff.mp hcj).1
+    have hold : (st.w.getD j []).length = t := by
+      rw [List.getD_eq_getElem?_getD, List.getElem?_eq_getElem hj]
+      exact hwt _ (List.getElem_mem hj)
+    simp only []
+    generalize hold' : st.w.getD j [] = old at hold
+    rw [rankOne_if_zero false t cj old st.r hold hrt (by rw [hcjl, hrn])]
+    set r1 := rankOne false cj old st.r with hr1
+    have hr1n : r1.length = Y.length := by rw [hr1, rankOne_length _ _ _ _ (by rw [hcjl, hrn]), hrn]
+    have hr1t : ∀ r ∈ r1, r.length = t := rankOne_rows false t cj old st.r hold hrt
+    generalize hnew : List.map (fun x => x / (nrm + denAdd))
+      (blockSoft (List.map (fun rc => dotC (contig && t == 1) rc cj) (colsOf t r1)) thr) = new
+    have hnewl : new.length = t := by
+      rw [← hnew]; simp [blockSoft_length, colsOf]
+    rw [rankOne_if_zero true t cj new r1 hnewl hr1t (by rw [hcjl, hr1n])]
+    refine ⟨?_, ?_, by simp [hwp], ?_, ?_⟩
+    · rw [rankOne_length _ _ _ _ (by rw [hcjl, hr1n]), hr1n]
+    · exact rankOne_rows true t cj new r1 hnewl hr1t
+    · intro wj hwj
+      rcases List.mem_or_eq_of_mem_set hwj with h | h
+      · exact hwt wj h
+      · rw [h]; exact hnewl
+    · intro k hk
+      rw [colK_rankOne true t k hk cj new r1 hnewl hr1t, hr1, colK_rankOne false t k hk cj old st.r hold hrt,
+        colK_set, hres k hk]
+      simp only [if_true, Bool.false_eq_true, if_false]
+      have hg : old.getD k 0 = (colK k st.w).getD j 0 := by rw [colK_getD k j st.w hj, hold']
+      rw [hg]
+      exact residual_set C (colK k Y) (colK k st.w) j cj (new.getD k 0)
+        (by intro c hc; rw [colK_length]; exact hC c hc) (by rw [colK_length, hwp]) hcj
+
+theorem bcdSweepGo_inv (contig : Bool) (t : Nat) (thr denAdd : ℝ) (C : List (List ℝ)) (Y : List (List ℝ))
+    (hC : ∀ c ∈ C, c.length = Y.length) (Cr : List (List ℝ)) :
+    ∀ (j : Nat) (ns : List ℝ) (st : BcdState ℝ), (∀ k, Cr[k]? = C[j + k]?) → BcdInv t C Y st →
+      BcdInv t C Y (bcdSweepGo contig t 0 thr denAdd j Cr ns st) := by
+  induction Cr with
+  | nil => intro j ns st _ h; simpa [bcdSweepGo] using h
+  | cons c Cr ih =>
+    intro j ns st hk h
+    cases ns with
+    | nil => simpa [bcdSweepGo] using h
+    | cons nrm ns =>
+      simp only [bcdSweepGo]
+      apply ih
+      · intro k
+        have := hk (k + 1)
+        simp only [List.getElem?_cons_succ] at this
+        rw [this]; congr 1; omega
+      · apply bcdCoord_inv contig t thr denAdd C Y st j c nrm hC _ h
+        have := hk 0
+        simpa using this.symm
+
+theorem bcdLoop_certificate (contig : Bool) (t : Nat) (thr denAdd : ℝ) (C : List (List ℝ)) (norms : List ℝ)
+    (Y : List (List ℝ)) (n tol tolS l1r pen : ℝ) (maxSteps : Nat) (hC : ∀ c ∈ C, c.length = Y.length) :
+    ∀ (fuel steps : Nat) (w r : List (List ℝ)) (gap : ℝ) (w' : List (List ℝ)) (g' : ℝ) (s' : Nat),
+      BcdInv t C Y { w := w, r := r, wMax := 0, dwMax := 0 } →
+      bcdLoop contig t 0 thr denAdd C norms Y n tol tolS l1r pen maxSteps fuel steps w r gap = (w', g', s') →
+      s' ≤ steps + fuel ∧
+        (s' < steps + fuel → ∃ r', BcdInv t C Y { w := w', r := r', wMax := 0, dwMax := 0 } ∧
+          g' = dualityGapMtl t C Y w' r' l1r pen n ∧ g' < tolS) := by
+  intro fuel
+  induction fuel with
+  | zero =>
+    intro steps w r gap w' g' s' _ h
+    simp only [bcdLoop, Prod.mk.injEq] at h
+    obtain ⟨rfl, rfl, rfl⟩ := h
+    exact ⟨le_refl _, fun h => absurd h (lt_irrefl _)⟩
+  | succ fuel ih =>
+    intro steps w r gap w' g' s' hinv0 h
+    have hinv : BcdInv t C Y (bcdSweepGo contig t 0 thr denAdd 0 C norms { w := w, r := r, wMax := 0, dwMax := 0 }) :=
+      bcdSweepGo_inv contig t thr denAdd C Y hC C 0 norms _ (fun k => by simp) hinv0
+    simp only [bcdLoop] at h
+    generalize bcdSweepGo contig t 0 thr denAdd 0 C norms { w := w, r := r, wMax := 0, dwMax := 0 } = st at hinv h
+    have hinv' : BcdInv t C Y { w := st.w, r := st.r, wMax := 0, dwMax := 0 } := hinv
+    split at h
+    · split at h
+      · rename_i hg
+        simp only [Prod.mk.injEq] at h
+        obtain ⟨rfl, rfl, rfl⟩ := h
+        exact ⟨by omega, fun _ => ⟨st.r, hinv', rfl, hg⟩⟩
+      · have := ih (steps + 1) st.w st.r _ w' g' s' hinv' h
+        exact ⟨by omega, fun hlt => this.2 (by omega)⟩
+    · have := ih (steps + 1) st.w st.r _ w' g' s' hinv' h
+      exact ⟨by omega, fun hlt => this.2 (by omega)⟩
+
+theorem bcdInv_hres (t : Nat) (C : List (List ℝ)) (Y : List (List ℝ)) (st : BcdState ℝ) (h : BcdInv t C Y st) :
+    colsOf t st.r = List.zipWith (fun yk wk => LeastSquares.residual C yk wk 0) (colsOf t Y) (colsOf t st.w) := by
+  rw [colsOf_eq, colsOf_eq, colsOf_eq, zipWith_map_map_self]
+  apply List.map_congr_left
+  intro k hk
+  exact h.2.2.2.2 k (List.mem_range.mp hk)
+
+theorem bcdInv_start (t : Nat) (C : List (List ℝ)) (Y : List (List ℝ)) (hC : ∀ c ∈ C, c.length = Y.length)
+    (hY : ∀ y ∈ Y, y.length = t) :
+    BcdInv t C Y { w := List.replicate C.length (List.replicate t 0), r := Y, wMax := 0, dwMax := 0 } := by
+  refine ⟨rfl, hY, by simp, ?_, ?_⟩
+  · intro wj hwj
+    rw [List.eq_of_mem_replicate hwj]; simp
+  · intro k hk
+    have : colK k (List.replicate C.length (List.replicate t (0 : ℝ))) = List.replicate C.length 0 := by
+      simp [colK, hk]
+    simp only [this]
+    exact (residual_zero_start C (colK k Y) (by intro c hc; rw [colK_length]; exact hC c hc)).symm
+
+/-! ### intercepts of the multi-task fit -/
+
+/-- `objectiveMtl` with arbitrary intercepts, unfolded task by task -/
+theorem objectiveMtl_eq_b (t : Nat) (C : List (List ℝ)) (Y W : List (List ℝ)) (b : List ℝ) (l1r pen n : ℝ)
+    (hW : ∀ wj ∈ W, wj.length = t) (hb : b.length = t) :
+    objectiveMtl C (colsOf t Y) (colsOf t W) W b l1r pen n
+      = 1 / 2 * ((List.range t).map fun k =>
+            dot (LeastSquares.residual C (colK k Y) (colK k W) (b.getD k 0))
+              (LeastSquares.residual C (colK k Y) (colK k W) (b.getD k 0))).sum
+        + l1r * pen * n * (W.map fun wj => Real.sqrt (dot wj wj)).sum
+        + 1 / 2 * ((1 - l1r) * pen * n) * frob W W := by
+  have hn2 : (norm2U : List ℝ → ℝ) = fun wj => Real.sqrt (dot wj wj) := funext norm2U_eq
+  unfold objectiveMtl
+  simp only [colsOf_eq, List.zip_map', sumS_eq, dotS_eq, half_eq, hn2, List.map_map]
+  rw [zipWith_map_range_getD _ _ t b hb]
+  have h3 : (List.map ((fun w => dot w w) ∘ fun k => colK k W) (List.range t)).sum = frob W W :=
+    frob_colsOf t W W hW hW
+  rw [h3]
+
+/-- what `compute_intercept` returns for a 2-D target: shapes, and task `k` of the centred target is task `k`
+of the target minus its mean -/
+theorem computeInterceptMtl_spec (t : Nat) (Y : List (List ℝ)) (n : ℝ) (hY : ∀ y ∈ Y, y.length = t) :
+    (computeInterceptMtl true t Y n).1.length = t ∧
+    (computeInterceptMtl true t Y n).2.length = Y.length ∧
+    (∀ y ∈ (computeInterceptMtl true t Y n).2, y.length = t) ∧
+    ∀ k, k < t → (computeInterceptMtl true t Y n).1.getD k 0 = (colK k Y).sum / n ∧
+      colK k (computeInterceptMtl true t Y n).2 = (colK k Y).map (· - (colK k Y).sum / n) := by
+  simp only [computeInterceptMtl, if_true]
+  refine ⟨by simp [colsOf], by simp, ?_, ?_⟩
+  · intro y hy
+    obtain ⟨row, hrow, rfl⟩ := List.mem_map.mp hy
+    simp [colsOf, hY row hrow]
+  · intro k hk
+    have hm : (List.map (fun c => sumS c / n) (colsOf t Y)).getD k 0 = (colK k Y).sum / n := by
+      simp [colsOf_eq, List.getD_eq_getElem?_getD, hk, sumS_eq]
+    refine ⟨hm, ?_⟩
+    unfold colK
+    rw [List.map_map, List.map_map]
+    apply List.map_congr_left
+    intro row hrow
+    have hrl : k < row.length := by rw [hY row hrow]; exact hk
+    simp only [Function.comp]
+    have hm' : (List.map (fun c => sumS c / n) (colsOf t Y)).getD k 0
+        = (List.map (fun row => row.getD k 0) Y).sum / n := hm
+    rw [← hm']
+    have hMl : (List.map (fun c => sumS c / n) (colsOf t Y)).length = t := by simp [colsOf]
+    generalize List.map (fun c => sumS c / n) (colsOf t Y) = M at hMl ⊢
+    have hk2 : k < M.length := by omega
+    simp [List.getD_eq_getElem?_getD, List.getElem?_zipWith, hrl, hk2]
+
+/-! ### the group prox is an argmin -/
+
+theorem dot_map_mul_right (x : List ℝ) (s : ℝ) : dot x (x.map (· * s)) = s * dot x x := by
+  induction x with
+  | nil => simp
+  | cons a as ih => simp only [List.map_cons, dot_cons, ih]; ring
+
+theorem dot_map_mul_self (x : List ℝ) (s : ℝ) : dot (x.map (· * s)) (x.map (· * s)) = s ^ 2 * dot x x := by
+  induction x with
+  | nil => simp
+  | cons a as ih => simp only [List.map_cons, dot_cons, ih]; ring
+
+theorem dot_replicate_zero_left (n : Nat) (z : List ℝ) : dot (List.replicate n 0) z = 0 := by
+  rw [dot_comm]; exact dot_replicate_zero z n
+
+theorem softThreshold_nonneg_arg (a thr den : ℝ) (ha : 0 ≤ a) :
+    softThreshold a thr den = max (a - thr) 0 / den := by
+  unfold softThreshold signumS
+  rw [if_neg (not_lt.mpr ha), maxS_eq, absS_eq, abs_of_nonneg ha]; ring
+
+/-- **the block update is the exact minimiser of the per-feature subproblem** -/
+theorem blockSoft_argmin (x z : List ℝ) (thr den : ℝ) (hthr : 0 ≤ thr) (hden : 0 < den) :
+    1 / 2 * den * dot ((blockSoft x thr).map (· / den)) ((blockSoft x thr).map (· / den))
+        - dot x ((blockSoft x thr).map (· / den))
+        + thr * Real.sqrt (dot ((blockSoft x thr).map (· / den)) ((blockSoft x thr).map (· / den)))
+      ≤ 1 / 2 * den * dot z z - dot x z + thr * Real.sqrt (dot z z) := by
+  set a := Real.sqrt (dot x x) with ha
+  have ha0 : 0 ≤ a := Real.sqrt_nonneg _
+  have haa : a * a = dot x x := Real.mul_self_sqrt (dot_self_nonneg x)
+  set sz := Real.sqrt (dot z z) with hsz
+  have hsz0 : 0 ≤ sz := Real.sqrt_nonneg _
+  have hszz : sz * sz = dot z z := Real.mul_self_sqrt (dot_self_nonneg z)
+  have hcs : dot x z ≤ a * sz := dot_le_norm_mul x z
+  -- the scalar problem in `‖z‖`
+  have hsc := soft_threshold_argmin a thr den sz hthr hden
+  rw [softThreshold_nonneg_arg a thr den ha0, abs_of_nonneg hsz0] at hsc
+  have hlow : 1 / 2 * den * sz ^ 2 - a * sz + thr * sz ≤ 1 / 2 * den * dot z z - dot x z + thr * sz := by
+    nlinarith
+  refine le_trans ?_ (le_trans hsc hlow)
+  unfold blockSoft
+  rw [norm2U_eq, ← ha]
+  by_cases h : a ≤ thr
+  · rw [if_pos h]
+    have hm : max (a - thr) 0 = 0 := max_eq_right (by linarith)
+    simp only [List.map_replicate, zero_div, dot_replicate_zero, dot_replicate_zero_left, hm]
+    simp
+  · rw [if_neg h]
+    have hlt : thr < a := lt_of_not_ge h
+    have hapos : 0 < a := lt_of_le_of_lt hthr hlt
+    have hm : max (a - thr) 0 = a - thr := max_eq_left (by linarith)
+    simp only [List.map_map]
+    have hfun : ((fun v : ℝ => v / den) ∘ fun v => v * (1 - thr / a)) = fun v => v * ((1 - thr / a) / den) := by
+      funext v; simp only [Function.comp]; ring
+    rw [hfun, dot_map_mul_self, dot_map_mul_right, hm]
+    set c := (1 - thr / a) / den with hc
+    have hc0 : 0 ≤ c := by
+      apply div_nonneg _ hden.le
+      rw [sub_nonneg, div_le_one hapos]; exact hlt.le
+    have hsq : Real.sqrt (c ^ 2 * dot x x) = c * a := by
+      rw [Real.sqrt_mul (sq_nonneg c), Real.sqrt_sq hc0]
+    rw [hsq]
+    have hca : c * a = (a - thr) / den := by rw [hc]; field_simp
+    rw [← haa, abs_of_nonneg (div_nonneg (by linarith) hden.le)]
+    have : c ^ 2 * (a * a) = (c * a) ^ 2 := by ring
+    rw [this, hca]
+    have e2 : c * (a * a) = a * ((a - thr) / den) := by rw [← hca]; ring
+    rw [e2]
 
 end LinfaSpec.LeastSquares
